@@ -179,6 +179,23 @@ def vary_opts(rng, f):
     return o
 
 
+def junk_lexemes(rng, n):
+    """A random sequence of n lexemes of the bracket language (Appendix A): samples the space
+    of token-class sequences directly instead of through damage to a well-formed file."""
+    out = []
+    for _ in range(n):
+        k = rng.choice("LLLRRRWWTTT")
+        if k == "L":
+            out.append("(")
+        elif k == "R":
+            out.append(")")
+        elif k == "W":
+            out.append(rng.choice([" ", " ", "\n", "\t", "  ", " \n"]))
+        else:
+            out.append(rng.choice(["a", "NP", "x", "S", "-", "b."]))
+    return "".join(out)
+
+
 def generate(seed, tier):
     rng = random.Random(seed)
     mode = "clean" if rng.random() < 0.65 else "damage"
@@ -203,13 +220,17 @@ def generate(seed, tier):
         data = cm.render_file({k: v for k, v in f.items() if k != "damage"})
         n = max(1, len(data))
         how = rng.choice(["truncate", "truncate", "lose_block", "dup_block", "bitflip",
-                          "insert"])
+                          "insert", "overwrite", "junk"])
         if f["fmt"] == "discobrackets":
             how = "truncate"
         dmg = {"how": how, "at": rng.randrange(n), "len": rng.randint(1, 12),
                "bit": rng.randrange(7)}
         if how == "insert":
             dmg["bytes"] = rng.choice(["(", ")", " ", "x", "((", "))", ") (", "( "])
+        if how in ("overwrite", "junk"):
+            dmg["bytes"] = junk_lexemes(rng, rng.randint(1, 6) if how == "overwrite"
+                                        else rng.randint(1, 14))
+            dmg["enc"] = f["enc"]
         f["damage"] = dmg
         f["gz"] = False
         f["path"] = f["path"][:-3] if f["path"].endswith(".gz") else f["path"]
